@@ -98,4 +98,4 @@ if __name__ == "__main__":
                            "temperature setters, tool/power/coolant/tool-change/halt family, all modal switches), numeric "
                            "arguments from a finite grid {0, 1/2, 50, 100, 255, 1000, ...} plus random dyadics; equality "
                            "checked after every call; every 5th history under bounds.",
-                      theorem_names="C07_mirror (coq/props/C07.v)")
+                      theorem_names="C07_mirror, C07_step, C07_params, C07_params_step, C07_params_frame (coq/props/C07.v)")
